@@ -166,7 +166,13 @@ var (
 )
 
 // c07Inst builds instance i of a history from its choices.
+// c07Constant makes every instance use the same values (a setting repeated with the value it already has).
+var c07Constant bool
+
 func c07Inst(i int, rest bool, set [7]bool) refplay.Inst {
+	if c07Constant {
+		i = 1
+	}
 	in := refplay.Inst{Values: one()}
 	if !rest {
 		in.Chord = &refplay.Chord{Degree: iv("1"), Symbol: ""}
@@ -237,6 +243,9 @@ func runC07(e *Env) {
 		})
 		e.R.AddPart(ev.Part{Name: name, Enumerated: fmt.Sprintf("all settings histories of length <= %d with <= %d present settings (deviations), kind chord/rest free", maxLen, bound), Executions: st.Executions, Exhaustive: true})
 	}
+	c07Constant = true
+	explore("histories-len3-dev3-repeated-values", 3, 3)
+	c07Constant = false
 	if e.Thorough {
 		explore("histories-len3-dev4", 3, 4)
 		explore("histories-len4-dev3", 4, 3)
